@@ -82,6 +82,12 @@ def r1_no_stale_cache(ctx):
                             tokens.append((p, cl, cal))
                 if any(isinstance(x, ast.Attribute) and x.attr in ("st_mtime_ns", "st_mtime") for x in ast.walk(ax)):
                     tokens.append((p, ax, None))
+                elif isinstance(ax, ast.Name):
+                    # a local with several definitions (token / None when the file cannot be stat'ed, e.g. after
+                    # the token helper was inlined): every non-None definition must carry the modification time
+                    dv = [expand(s.caller, v_) for _, v_ in local_defs(s.caller, ax.id) if v_ is not None and not (isinstance(v_, ast.Constant) and v_.value is None)]
+                    if dv and all(any(isinstance(x, ast.Attribute) and x.attr in ("st_mtime_ns", "st_mtime") for x in ast.walk(v_)) for v_ in dv):
+                        tokens.append((p, dv[0], None))
             ok = bool(tokens)
             why = "the cache key carries a file-version token"
             if ok:
@@ -150,8 +156,13 @@ def r2_tables_agree(ctx):
     sn = [c for c in calls_in(f.node) if isinstance(c.func, ast.Attribute) and c.func.attr == "sniff"]
     ok = len(sn) == 1 and norm(expand(f, kw(sn[0], "delimiters"))) in ("''.join(('\\t', ' ', ',', '|', ';'))", "''.join(valid_delimiters)")
     ctx.check(ok, f.qual + "#sniff", "the sniffer is restricted to the valid separators" if ok else "the sniffer is not restricted to the valid separators", where=f, node=sn[0] if sn else f.node)
-    rd = [c for c in calls_in(f.node) if call_name(c) in ("pd.read_csv", "pd.read_table")]
-    ok = len(rd) == 2 and all(dotted(kw(c, "delimiter")) == "delimiter" for c in rd)
+    def _is_text_parser(c):
+        fn_ = expand(f, c.func)
+        alts = [fn_.body, fn_.orelse] if isinstance(fn_, ast.IfExp) else [fn_]
+        return all(dotted(a_) in ("pd.read_csv", "pd.read_table", "pandas.read_csv", "pandas.read_table") for a_ in alts), len(alts)
+
+    rd = [c for c in calls_in(f.node) if _is_text_parser(c)[0]]
+    ok = sum(_is_text_parser(c)[1] for c in rd) == 2 and all(dotted(kw(c, "delimiter")) == "delimiter" for c in rd)
     ctx.check(ok, f.qual + "#delimiter-used", "the detected separator is the one used for parsing" if ok else "the detected separator is not used for parsing", where=f, node=rd[0] if rd else f.node)
     want = {
         f"{LD}:load_image": [".fits", ".npy", (".txt", ".data")],
@@ -170,6 +181,16 @@ def r2_tables_agree(ctx):
         if chain and not q.endswith("_v2"):
             last = chain[-1]
             ok = bool(last.orelse) and ends_in_raise(last.orelse)
+            if not ok and not last.orelse:
+                # `if A: return ..` / `if B: return ..` / raise: every arm leaves, what follows the last arm raises
+                from sa.index import parent as _par
+
+                blk = getattr(_par(last), "body", [])
+                if last in blk:
+                    rest = blk[blk.index(last) + 1 :]
+                    from sa.canon import always_exits
+
+                    ok = bool(rest) and ends_in_raise(rest) and all(always_exits(i.body) for i in chain)
             ctx.check(ok, q + "#else", "unsupported suffixes raise" if ok else "an unsupported suffix does not raise", where=f, node=last)
 
 
@@ -225,6 +246,27 @@ def r3_alignment_exhaustive(ctx):
     fs = feasible("Alignment.__not_a_member__")
     ok = bool(fs) and all(q.exit == "raise" for q in fs)
     ctx.check(ok, f.qual + "#else", "unknown keyword raises" if ok else "unknown alignment does not raise", where=f, node=f.node)
+
+
+def _is_loaded_from(ctx, f, e, fname: str, _depth: int = 0) -> bool:
+    """``e`` is load_image(<fname>), directly or through a wrapper of the package every return of
+    which is load_image(<its own parameter>) (error decoration around the read does not matter)."""
+    if e is None or _depth > 2:
+        return False
+    v = expand(f, e)
+    if not isinstance(v, ast.Call) or len(v.args) + len(v.keywords) != 1:
+        return False
+    a = v.args[0] if v.args else v.keywords[0].value
+    if dotted(a) != fname:
+        return False
+    if call_name(v).split(".")[-1] == "load_image":
+        return True
+    for cal in ctx.R.resolve_call(f, v):
+        if isinstance(cal, FuncInfo) and cal.params:
+            rets = [r for r in returns_of(cal) if r.value is not None]
+            if rets and all(_is_loaded_from(ctx, cal, r.value, cal.params[0], _depth + 1) for r in rets):
+                return True
+    return False
 
 
 def r4_pure_shift(ctx):
@@ -308,7 +350,7 @@ def r4_pure_shift(ctx):
     # callers: (position_y, position_x) order
     lc = ctx.func(f"{IMG}:_load_cropped_and_aligned_image") if ctx.repo.has_func(f"{IMG}:_load_cropped_and_aligned_image") else ctx.func(f"{IMG}:load_cropped_and_aligned_image")
     fc = [c for c in calls_in(lc.node) if call_name(c) == "fit_into_array"]
-    ok = len(fc) == 1 and norm(kw(fc[0], "relative_position")) == "(position_y, position_x)" and dotted(kw(fc[0], "output_shape")) == "shape" and dotted(kw(fc[0], "align")) == "align" and norm(expand(lc, kw(fc[0], "array"))) == "load_image(filename)"
+    ok = len(fc) == 1 and norm(kw(fc[0], "relative_position")) == "(position_y, position_x)" and dotted(kw(fc[0], "output_shape")) == "shape" and dotted(kw(fc[0], "align")) == "align" and _is_loaded_from(ctx, lc, kw(fc[0], "array"), "filename")
     ctx.check(ok, lc.qual, "fit_into_array(load_image(filename), shape, (position_y, position_x), align)" if ok else "loader passes position/shape/alignment in the wrong slots", where=lc, node=fc[0] if fc else lc.node)
     # ... on EVERY path: whatever the input's shape, what is returned went through fit_into_array (a
     # shortcut for "already the right shape" would ignore the requested offset / alignment)
